@@ -85,10 +85,6 @@ def specFilteredMem (clear : Bool) (s : EState) (f : Option Filter) : Option Sto
       | some f => if isEmptyFilter f then full else filterStore f full
     some (appendStore base sub)
 
-def inDomain (s : EState) : Option Filter → Bool
-  | none => true
-  | some f => isEmptyFilter f || ((splitOn '\n' s.file).all fun l => naiveOK f (strip l))
-
 def handleLoadF (clear : Bool) (d : DState) (f : Option Filter) : DState × String :=
   let (s', e) := loadFilteredGen clear d.s f
   let nonEmpty := match f with | none => false | some f => !isEmptyFilter f
@@ -97,8 +93,7 @@ def handleLoadF (clear : Bool) (d : DState) (f : Option Filter) : DState × Stri
     | some m => encStore m ++ "," ++ encBool nonEmpty
   let last := if e.isNone then some nonEmpty else none
   ({ s := s', lastFiltered := last },
-   "model=" ++ showOE e ++ "," ++ encStore s'.mem ++ "," ++ encBool s'.filtered ++ " spec=" ++ spec ++ " dom=" ++
-     encBool (inDomain d.s f))
+   "model=" ++ showOE e ++ "," ++ encStore s'.mem ++ "," ++ encBool s'.filtered ++ " spec=" ++ spec ++ " dom=T")
 
 /-- the history operations while the policy file is missing (`Model.stepF`) -/
 def handleMissing (d : DState) (o : Op) : DState × String :=
@@ -177,7 +172,8 @@ def handlePresent (d : DState) (fs : List String) : DState × String :=
           | .ok (some (k, r)) => encBool (!keeps f k r)
           | .ok none => "F"
           | .error _ => "?"
-        "model=" ++ encBool (filterLine s f) ++ " spec=" ++ sp ++ " dom=" ++ encBool (naiveOK f s)
+        let mo := match filterLine s f with | .ok b => encBool b | .error e => showErr e
+        "model=" ++ mo ++ " spec=" ++ sp ++ " dom=T"
       | _, _ => "bad-op")
   | ["emptyfilter", f] =>
     (d, match decFilter f with | some (some f) => encBool (isEmptyFilter f) | _ => "bad-op")
